@@ -58,7 +58,7 @@ ValueForms == {
 Tags == {TagHtml("div"), TagHtml("svg"), TagHtml("input"), TagCustom("i-foo"), TagCustom("x-foo"),
          TagCustomBound("UiBox", Opq("vUiBox")), TagCustom("Widget"), TagCustom("ION-y"),
          TagComp("Foo", TRUE, Opq("vFoo")), TagComp("Bar", FALSE, Undef),
-         TagMember("o2", "Comp", Opq("vo2Comp")), TagMember("o2", "div", Opq("vo2div")), TagFragmentName, TagKeepAlive}
+         TagMember("o2", "Comp", Opq("vo2Comp")), TagMember("o2", "div", Opq("vo2div")), TagMember("o2", "my-el", Opq("vo2myel")), TagFragmentName, TagKeepAlive}
 
 BoolOpts(mp, ton, opt, pats) ==
   [DefaultOpts EXCEPT !.mergeProps = mp, !.transformOn = ton, !.optimize = opt, !.patterns = pats]
